@@ -24,7 +24,7 @@ import (
 )
 
 const timerDelay = 3 * time.Millisecond
-const timerWait = 60 * time.Millisecond
+const timerWait = 100 * time.Millisecond
 
 type sop struct {
 	kind  byte // W F T X D | S R C Q
@@ -202,7 +202,7 @@ func (x *c03) randPacket(big bool) packet.Generic {
 func (x *c03) encoderCases() {
 	c := x.c
 	r := c.Rng
-	n := 400
+	n := 300
 	if c.Thorough() {
 		n = 4000
 	}
@@ -346,7 +346,7 @@ func shortOps(ops []sop) string {
 func (x *c03) connCases() {
 	c := x.c
 	r := c.Rng
-	n := 500
+	n := 400
 	if c.Thorough() {
 		n = 5000
 	}
